@@ -81,15 +81,16 @@ def withPart (p : Str) (n : Nat) : Option Str :=
   let (dir, name) := splitPath p
   (withExt name n).map (dir ++ ·)
 
-/-- the inner logic of `remove_part_n` on the file name -/
+/-- the inner logic of `remove_part_n` on the file name (after the `fix:` that made it test for a real
+    `.partN` marker — digits — like `with_part_n`, instead of any extension starting with "part") -/
 def removeExt (name : Str) : Option Str :=
   match splitExt name with
   | none => none
   | some (_, none) => some name
   | some (stem, some e) =>
-    if partPrefix.isPrefixOf e then some stem
+    if isPartMarker e then some stem
     else match splitExt stem with
-      | some (_, some may) => if partPrefix.isPrefixOf may then some (withExtension stem e) else some name
+      | some (_, some may) => if isPartMarker may then some (withExtension stem e) else some name
       | _ => some name
 
 /-- `remove_part_n` -/
